@@ -587,18 +587,17 @@ func (g *gmectx) errorInfeasible(r *ssa.Return, firstEffect ssa.Instruction, isE
 	} else {
 		optVal = arg
 	}
-	e, isE := stripConv(optVal).(*ssa.Extract)
-	if !isE || e.Index != 2 {
+	// (the entry as the scan's value, or looked up by the scan's key in the same unchanged map)
+	var src *rangeLoop
+	for _, rl := range rangeLoops(upd, func(v ssa.Value) bool { return isLoadOf(v, "GCPMultiEndpointOptions.MultiEndpoints") }) {
+		if rl.val(optVal) {
+			src = rl
+		}
+	}
+	if src == nil {
 		return false, "argument is not an entry of the option map"
 	}
-	nx, _ := e.Tuple.(*ssa.Next)
-	if nx == nil {
-		return false, "argument is not an entry of the option map"
-	}
-	rng, _ := nx.Iter.(*ssa.Range)
-	if rng == nil || !isLoadOf(rng.X, "GCPMultiEndpointOptions.MultiEndpoints") {
-		return false, "argument does not range over the option map"
-	}
+	nx, rng := src.Next, src.Range
 	// validation loop over the same map, before the first effect
 	for _, vl := range rangeLoops(upd, func(v ssa.Value) bool { return isLoadOf(v, "GCPMultiEndpointOptions.MultiEndpoints") }) {
 		if vl.Next == nx {
